@@ -479,6 +479,35 @@ func (e *simEnv) judge(res drive.Result, tag string) (flow *refmatch.Flow, js []
 		}
 		return f, js
 	}
+	if v.Serial {
+		// the serial engine reads one frame at a time while a probe is outstanding and ends the run at the first
+		// destination reply it reads: the list ends at that reply's TTL (an identifier-less SYN-ACK/RST is credited to the
+		// probe most recently sent when it was read), else it runs to the last TTL (C03)
+		want := int(e.spec.MaxTTL) - first + 1
+		decided := true
+		var by *judged
+		for i := range js {
+			o := js[i].out
+			if o.Kind == refmatch.Abort || (o.Kind == refmatch.Maybe && (o.Dest || o.OrLater)) {
+				decided = false
+				break
+			}
+			if o.Kind == refmatch.Accept && o.Dest {
+				want, by = o.TTL-first+1, &js[i]
+				break
+			}
+		}
+		if decided {
+			c.Count("serial_length_checked", 1)
+			if len(hops) != want {
+				why := "no destination reply was read"
+				if by != nil {
+					why = fmt.Sprintf("frame #%d (%s) is the first destination reply read, for probe %d", by.d.Frame.ID, by.d.Frame.Class, by.out.TTL)
+				}
+				c.Violate("C03", "length/"+v.Name, fmt.Sprintf("%s: %d hops, expected %d: %s", tag, len(hops), want, why), detail())
+			}
+		}
+	}
 	// per-hop forms
 	for i, h := range hops {
 		t := first + i
